@@ -333,7 +333,7 @@ PROPS = {
     },
     "C16": {
         "rules": [lambda prog, tier: copy.run_shallow(prog), lambda prog, tier: copy.run_params(prog), lambda prog, tier: copy.run_strflags(prog),
-                  lambda prog, tier: copy.run_clobber(prog), lambda prog, tier: nzcount.run(prog, shared_eff(prog)),
+                  lambda prog, tier: copy.run_clobber(prog), lambda prog, tier: nzcount.run(prog, shared_eff(prog)), lambda prog, tier: copy.run_fields(prog, shared_eff(prog)),
                   lambda prog, tier: exact.run(prog, {"COPY": {"roots": ["QScopy_prob_mpq_dbl", "QScopy_prob_mpq_mpf"], "closure": False}},
                                                exceptions={("QScopy_prob_mpq_dbl", "mpq_get_d"): "the conversion to double itself: mpq_get_d truncates to the nearest "
                                                            "double toward zero, within one unit in the last place",
@@ -747,7 +747,10 @@ _ADD = {
                            "point answers from the cache of the previous basis."},
     "C16": {"explanation": " (R-STRFLAGS) no string function is applied to a flag array of the problem (a strncpy of intmarker stops at the first "
                            "continuous column). (R-NZCOUNT) every library function that changes the column counts of the problem's matrix also updates the stored "
-                           "non-zero total (a problem whose total went stale differs observably from its copy, which is rebuilt entry by entry)."},
+                           "non-zero total (a problem whose total went stale differs observably from its copy, which is rebuilt entry by entry). (R-COPYFIELDS) sibling agreement of the two routines that build a whole problem: every field of "
+                           "the problem record that the file reader's conversion fills with something other than a constant and that the writers read "
+                           "is also filled for the new problem by QScopy_prob or a callee (fill summaries computed bottom-up; stores of constants and "
+                           "releases do not count)."},
     "C17": {"technique": "; capacity-governed allocation agreement (governed arrays discovered from their allocation sites); read-but-never-written "
                          "field census; printf-format census; floating-point-derived subscript taint; four-array norm typestate at a basis load; "
                          "index-space typing of subscripts in the raw-to-LP conversion (R-RAWIDX); subscript-space requirement of parameters "
